@@ -16,7 +16,17 @@ pub const AUX_NAMES: [&str; 6] = ["zr", "zs", "zt", "zu", "zc", "zd"];
 
 impl NameMap {
     pub fn new(id: &str) -> NameMap {
-        let table: Vec<&str> = match id {
+        let generated: Vec<String>;
+        let table: Vec<&str> = if let Some(seed) = id.strip_prefix("rnd") {
+            generated = random_names(seed.parse().unwrap_or(1));
+            generated.iter().map(|s| s.as_str()).collect()
+        } else {
+            Self::fixed_table(id)
+        };
+        Self::from_table(id, table)
+    }
+    fn fixed_table(id: &str) -> Vec<&'static str> {
+        match id {
             "ascii" => vec!["a", "b", "c", "d", "e", "f"],
             // siblings that are string prefixes of each other (MemoryFS lists by string prefix)
             "prefix" => vec!["a", "ab", "a.b", "abc", "a-", "a b"],
@@ -31,7 +41,9 @@ impl NameMap {
             "fixture" => vec!["a.txt", "a.txt.dir", "ä.bin", "sub dir", ".hidden", "empty"],
             "long" => vec![],
             _ => panic!("unknown name map {id}"),
-        };
+        }
+    }
+    fn from_table(id: &str, table: Vec<&str>) -> NameMap {
         let mut fwd = HashMap::new();
         let mut back = HashMap::new();
         for (i, a) in ABSTRACT_NAMES.iter().enumerate() {
@@ -70,6 +82,39 @@ impl NameMap {
         }
         Some(s[1..].split('/').map(|c| self.abs_name(c)).collect())
     }
+}
+
+/// Seeded name table "rnd<seed>": six distinct component names built from fragments that are awkward for
+/// string-based path handling (prefix relations, characters sorting around '/', dots, spaces, multi-byte,
+/// upper/lower case pairs, backslash, percent).  Never ".", "..", empty, containing '/', NUL, or one of the
+/// overlay's reserved names (".whiteout", "*_wo").  Each later name is, with probability 1/2, an earlier
+/// name plus a suffix, so prefix relations between siblings are frequent.
+pub fn random_names(seed: u64) -> Vec<String> {
+    const FRAG: [&str; 22] = ["a", "b", "A", ".", "-", " ", "+", "_", "0", "~", "%", "\\", ":", "ä", "日", "!", "#", "..", "a.", ".a", "wo", "é\u{301}"];
+    let mut x = seed.wrapping_mul(6364136223846793005).wrapping_add(1442695040888963407);
+    let mut next = move |n: usize| {
+        x = x.wrapping_mul(6364136223846793005).wrapping_add(1442695040888963407);
+        ((x >> 33) as usize) % n
+    };
+    let mut out: Vec<String> = vec![];
+    let mut guard = 0;
+    while out.len() < 6 {
+        guard += 1;
+        let mut s = String::new();
+        if !out.is_empty() && next(2) == 0 && guard < 1000 {
+            s.push_str(&out[next(out.len())]);
+            s.push_str(FRAG[next(FRAG.len())]);
+        } else {
+            for _ in 0..(1 + next(3)) {
+                s.push_str(FRAG[next(FRAG.len())]);
+            }
+        }
+        let reserved = s == "." || s == ".." || s.is_empty() || s.ends_with("_wo") || s == ".whiteout" || s.trim() != s || s.len() > 60;
+        if !reserved && !out.contains(&s) {
+            out.push(s);
+        }
+    }
+    out
 }
 
 /// byte symbols 0..3 -> B bytes each. 0 = zero fill; 1 = ASCII letters; 2, 3 = bytes that are never valid UTF-8
